@@ -651,6 +651,9 @@ class Analysis:
                     return ("V", "iter", "slice", ("P", x[1], x[2], te.length(adt_args(st_)[1])), cs.key.startswith("<&mut"))
             if cs.key == "<GenericArray<$0,$1> as core::iter::IntoIterator>::into_iter":
                 return ("V", "iter", "ga", x)
+            if res.startswith("<I as core::iter::IntoIterator>::into_iter"):
+                cs.no_effects = True
+                return x  # the blanket impl for iterators is the identity
             # `for x in slice_ref`: IntoIterator for &[T] / &mut [T] is slice.iter() / slice.iter_mut()
             t0 = targs[0] if targs else None
             if x[0] == "P" and x[3] is not None and t0 is not None and t0.get("k") == "ref" and t0["t"].get("k") == "slice":
@@ -764,6 +767,10 @@ class Analysis:
         if isinstance(it, tuple) and it and it[0] == "P" and it[3] is not None:
             # a slice reference used as IntoIterator
             return ("P", it[1], it[2] + Poly.atom(("elemoff", tag)), None)
+        if isinstance(it, tuple) and len(it) == 3 and it[0] == "A" and isinstance(it[1], tuple) and it[1][:2] == ("adt", "core::ops::Range") and len(it[2]) == 2 \
+                and it[2][0][0] == "I" and it[2][1][0] == "I":
+            # `for i in lo..hi`: the yielded index, with lo <= i < hi (axioms of the atom, poly.axioms_for)
+            return ("I", Poly.atom(("ridx", tag, it[2][0][1], it[2][1][1])))
         if not (isinstance(it, tuple) and len(it) >= 3 and it[0] == "V" and it[1] == "iter"):
             return None
         kind = it[2]
